@@ -6,13 +6,17 @@
   Gen/Tables.lean      constants the models depend on (limits, label strings, discriminants)
   Gen/Schemas.lean     wire/state schemas of every `#[derive(MlsSize/MlsEncode/MlsDecode)]` item that the
                        translator can resolve (C12)
+  Gen/Codecs.lean      codec expressions (derive layout + hand models of Model/CodecCustom.lean) of the items that are
+                       not plain schemas (C12); Gen/codecs.txt: their names with the WIRE / STATE flag
+
+The output directory is /verif/lean/MlsVerif/Gen unless the environment variable VERIF_OUT names another one.
 
 A construct the translator cannot parse is an error (exit 1), never a guess.  gen_manifest.json records the
 source hashes and the item lists."""
 import hashlib, json, os, re, sys
 
 REPO = os.environ.get("VERIF_REPO", "/repo")
-OUT = "/verif/lean/MlsVerif/Gen"
+OUT = os.environ.get("VERIF_OUT", "/verif/lean/MlsVerif/Gen")
 
 # ------------------------------------------------------------------------------------------------------------
 # helpers
@@ -332,6 +336,9 @@ def main():
         if write_if_changed(os.path.join(OUT, "Schemas.lean"), mod.generate(REPO, manifest)):
             changed.append("Schemas")
         write_if_changed(os.path.join(OUT, "schemas.txt"), manifest.pop("_schemas_txt", ""))
+        if write_if_changed(os.path.join(OUT, "Codecs.lean"), manifest.pop("_codecs_lean", "")):
+            changed.append("Codecs")
+        write_if_changed(os.path.join(OUT, "codecs.txt"), manifest.pop("_codecs_txt", ""))
     json.dump(manifest, open(os.path.join(OUT, "gen_manifest.json"), "w"), indent=1)
     print("translate: regenerated", changed or "nothing (unchanged)")
 
